@@ -150,6 +150,8 @@ class Model:
                     self.nodes[c]["parents"] = new
             self.nodes.pop(tgt)
             self.order.remove(tgt)
+        elif k == "analyse":
+            pass
         elif k == "set_sys_phases":
             self.phases = dict(op["phases"])
         elif k == "set_comp_phases":
@@ -214,6 +216,8 @@ def call(sysobj, op):
         return sysobj.change_comp(op["target"], comp=mk(op["kind"], op["name"], op.get("variant", 0)), **kw)
     if k == "del_comp":
         return sysobj.del_comp(op["target"], del_childs=op.get("del_childs", True))
+    if k == "analyse":  # an analysis in the middle of the history (fills whatever the analyses may cache)
+        return reports(sysobj)
     if k == "set_sys_phases":
         return sysobj.set_sys_phases(copy.deepcopy(op["phases"]))
     if k == "set_comp_phases":
@@ -321,6 +325,16 @@ BASES = {
                                       {"op": "del_comp", "target": "S1", "del_childs": True},
                                       {"op": "add_comp", "parents": ["S2", "C"], "kind": "PMux", "name": "M", "as_list": True},
                                       {"op": "add_comp", "parents": ["M"], "kind": "ILoad", "name": "L"}],
+    # analysis, then a component is MOVED (deleted and re-added under the same name below another parent: the freed node index
+    # is re-used, so the name -> index registry is identical before and after), then analysed again
+    "moved-leaf-after-analysis": [{"op": "new", "name": "S1"}, {"op": "add_comp", "parents": ["S1"], "kind": "Converter", "name": "C"},
+                                  {"op": "add_comp", "parents": ["S1"], "kind": "LinReg", "name": "G"},
+                                  {"op": "add_comp", "parents": ["C"], "kind": "PLoad", "name": "L"}, {"op": "analyse"},
+                                  {"op": "del_comp", "target": "L"}, {"op": "add_comp", "parents": ["G"], "kind": "PLoad", "name": "L"}],
+    "relinked-mux-input": [{"op": "new", "name": "S1"}, {"op": "add_source", "name": "S2"},
+                           {"op": "add_comp", "parents": ["S1"], "kind": "RLoss", "name": "B"},
+                           {"op": "add_comp", "parents": ["B", "S2"], "kind": "PMux", "name": "M"}, {"op": "add_comp", "parents": ["M"], "kind": "ILoad", "name": "L"},
+                           {"op": "analyse"}, {"op": "del_comp", "target": "B", "del_childs": False}],
     "mux-renamed-input": [{"op": "new", "name": "S1"}, {"op": "add_source", "name": "S2"},
                           {"op": "add_comp", "parents": ["S1", "S2"], "kind": "PMux", "name": "M"}, {"op": "add_comp", "parents": ["M"], "kind": "PLoad", "name": "L"},
                           {"op": "change_comp", "target": "S2", "kind": "Source", "name": "S2b", "variant": 1}],
